@@ -57,7 +57,7 @@ func cmdConc(args []string) error {
 	var fconts []interface{}
 	for _, c := range zoo.Conts() {
 		switch c.Name {
-		case "items", "arr", "pitems", "ifaces", "maps", "smap", "imap", "ifmap", "nsmap", "nkmap":
+		case "items", "arr", "pitems", "ifaces", "maps", "smap", "imap", "ifmap", "nsmap", "nkmap", "maps-long":
 			fconts = append(fconts, c.V)
 		}
 	}
